@@ -301,6 +301,12 @@ func verifC10Admin() {
 		v, err = s.doPauseChannel(nil, req, nil)
 	}
 	status := verifStatus(v, err)
+	if !verifrt.Symbolic() {
+		// native replay: the real PersistMetadata ran; it counts if nsqd.dat is on disk
+		if verifFileExists(newMetadataFile(n.getOpts())) {
+			persisted = 1
+		}
+	}
 	isChannel := ep[1] == 'c'
 	topicMissing, topicBad, topicKnown := topicArg == "", topicArg == "topic=b%24d", topicArg == "topic=t"
 	chanMissing, chanBad, chanKnown := chanArg == "", chanArg == "&channel=b%24d", chanArg == "&channel=c"
